@@ -98,9 +98,15 @@ def _assemble(job, tmp):
         with open(path, "w", encoding="utf-8") as fh:
             fh.write(job["src"])
         out = os.path.join(tmp, "shared_out.ips")   # every file-API assembly of a history writes to the same path
+        if job.get("fmt") == "sfc":
+            out = os.path.join(tmp, "shared_out.sfc")
         with impl.quiet():
             try:
-                st = Program().assemble_as_patch(path, out)
+                if job.get("fmt") == "sfc":
+                    from pathlib import Path
+                    st = Program().assemble(path, Path(out))
+                else:
+                    st = Program().assemble_as_patch(path, out)
             except BaseException as e:  # noqa: BLE001
                 st = type(e).__name__
                 _KEPT.append(e)    # a caller may keep the exception (and its traceback) around, e.g. to report it later
@@ -153,6 +159,16 @@ def vocab_program(rng, kind, drv):
     if kind == "table":
         ents = rng.sample(["10=A", "20=t", "21=h", "22=e", "02=B", "0304=the", "41=a", "42=b", "4344=ab"], 5)
         return {"src": "*=0x008000\n.table 'voc.tbl'\n.text 'ABthe ab'\n", "rom": "low_rom", "files": {"voc.tbl": "\n".join(ents) + "\n"}}
+    if kind == "map" and rng.random() < 0.4:
+        # a layout that re-uses the identifiers of the built-in buses on banks those give to something else
+        lo, hi = rng.choice([(0xc0, 0xff), (0x40, 0x6f), (0x80, 0xbf), (0x00, 0x3f)])
+        ident = rng.choice([1, 2])
+        return {"src": f".map identifier={ident} bank_range=0x{lo:x},0x{hi:x} addr_range=0x8000,0xffff mask=0x8000\n*=0x{lo + 1:02x}8000\n.db 1,2,3\nl:\n.dl l\n", "rom": rng.choice(["low_rom", "high_rom"])}
+    if kind == "plain-banks":
+        rom = rng.choice(["low_rom", "high_rom"])
+        banks = [0xc0, 0xc1, 0xff, 0x40, 0x41] if rom == "high_rom" else [0x00, 0x01, 0x40, 0x80, 0x81, 0xc0]
+        body = "".join(f"*=0x{b:02x}{rng.choice([0x8000, 0x9000, 0xfff0]):04x}\n.db {rng.randrange(256)}\nl{k}:\n.dl l{k}\n" for k, b in enumerate(rng.sample(banks, 3)))
+        return {"src": body, "rom": rom}
     if kind == "map":
         mask = rng.choice([0x8000, 0x10000])
         base = 0x10000 - mask
@@ -169,6 +185,13 @@ def vocab_program(rng, kind, drv):
     if kind == "ips":
         recs = b"".join((rng.randrange(0x100, 0x4000)).to_bytes(3, "big") + (n_ := rng.randrange(1, 5)).to_bytes(2, "big") + bytes(rng.randrange(256) for _ in range(n_)) for _ in range(rng.randrange(1, 4)))
         return {"src": f"*=0x008000\n.db 7\n.include_ips 'voc.ips', {rng.choice([0, 0x10, -0x10, 0x200])}\n.db 8\n", "rom": "low_rom", "bins": {"voc.ips": b"PATCH" + recs + b"EOF"}}
+    if kind == "file-sfc":
+        # an image written to the shared output path by an earlier assembly (larger than what a probe writes), or one that
+        # fails after having written its first block
+        return {"src": rng.choice([f"*=0x028000\n.db {rng.randrange(256)}, 2, 3\n", f"*=0x008000\n.db 5\n*=0x01fff0\n.db {rng.randrange(256)}, 7\n",
+                                   "*=0x038000\n.db 1,2,3,4\n*=0x048000\nbra far_zq + 300\nfar_zq:\n"]), "rom": "low_rom", "api": "file", "fmt": "sfc"}
+    if kind == "file-sfc-probe":
+        return {"src": f"*=0x008000\n.db {rng.randrange(256)}, {rng.randrange(256)}, 0xEE\n", "rom": "low_rom", "api": "file", "fmt": "sfc", "read_output": True}
     if kind == "file-probe":
         return {"src": f"*=0x018000\n.db {rng.randrange(256)}, {rng.randrange(256)}, 0xEE\n", "rom": "low_rom", "api": "file", "read_output": True}
     if kind == "file-failing":
@@ -194,8 +217,8 @@ def run(ctx):
     tmp = core.tmpdir()
     try:
         s = core.Stream("S19-history", "histories of 1-5 assemblies (valid generated programs, programs defining macros / symbols / tables / custom .map layouts with different geometries, programs failing in each phase, different ROM types) followed by a probe (valid, failing, using names only a history program defines, loading its own table / map), all in one fresh interpreter, vs the probe alone in another fresh interpreter; the probe is also repeated; monitor: every module/class-level mutable object and function default of the a816 and script packages is fingerprinted before and after each assembly; non-trivial = distinct (history kinds, probe kind)")
-        kinds = ["macros", "symbols", "table", "map", "failing", "generated", "generated", "include", "incbin", "ips", "file-failing"]
-        probes = ["uses-undefined", "table", "map", "generated", "symbols", "failing", "macros", "include", "incbin", "ips", "file-probe"]
+        kinds = ["macros", "symbols", "table", "map", "failing", "generated", "generated", "include", "incbin", "ips", "file-failing", "file-sfc"]
+        probes = ["uses-undefined", "table", "map", "generated", "symbols", "failing", "macros", "include", "incbin", "ips", "file-probe", "plain-banks", "file-sfc-probe"]
         jobs = []
         n = 60 if tier == "quick" else 500
         for i in range(n):
@@ -203,7 +226,7 @@ def run(ctx):
             pk = probes[i % len(probes)]
             # make histories relevant to the probe kind half of the time
             if rng.random() < 0.6:
-                hk[rng.randrange(len(hk))] = {"uses-undefined": rng.choice(["macros", "symbols", "table"]), "table": "table", "map": "map", "include": "include", "incbin": "incbin", "ips": "ips", "file-probe": "file-failing"}.get(pk, pk if pk in kinds else "generated")
+                hk[rng.randrange(len(hk))] = {"uses-undefined": rng.choice(["macros", "symbols", "table"]), "table": "table", "map": "map", "plain-banks": "map", "include": "include", "incbin": "incbin", "ips": "ips", "file-probe": "file-failing", "file-sfc-probe": "file-sfc"}.get(pk, pk if pk in kinds else "generated")
             if pk == "uses-undefined":
                 hk = hk[:2] + ["macros", "symbols", "table"]   # the names the probe uses are all defined by the history
             history = [vocab_program(rng, k, drv) for k in hk]
